@@ -62,6 +62,7 @@ def request_mix() -> typing.List[typing.Tuple[str, bytes, typing.Optional[bytes]
         mix.append((v, b"/mail.mbox|/MBOX-MESSAGE/2", None))
     for v in ("gopher", "gophers", "http", "gemini", "spartan"):
         mix.append((v, b"/cgi.sh", b"query %s" % v.encode()))
+        mix.append((v, b"/cgi.sh", None))
     for v in ("gopher", "gopherps+", "https", "spartan"):
         mix.append((v, b"/small.txt", None))
         mix.append((v, b"/large.bin", None))
